@@ -291,7 +291,9 @@ def check_mesh(ctx, case):
                                   {"scale": f, "nverts": [len(va), len(vb)],
                                    "maxdiff": float(np.max(np.abs(va - vb))) if va.shape == vb.shape else None})
                     return
-            if not np.allclose(Ba, Bb, rtol=1e-9, atol=1e-13):
+            # same tolerance as everywhere for triangle-based sources: rtol 1e-9 + the class floor (qhull may pick
+            # another, equivalent triangulation of a face at another scale - rounding-level differences)
+            if not tol.close_a(Bb, Ba, tol.FLOOR_CLASS["TriangularMesh"] * tol.EPS * float(np.linalg.norm(pol)), rtol=1e-9)[0]:
                 ctx.violation({"kind": "constructor-field-depends-on-scale", "ctor": name, "scale": d}, case,
                               {"scale": f, "base": Ba, "scaled": Bb})
                 return
